@@ -11,7 +11,7 @@ CONSTANTS MaxInst, MaxFile, Kinds, Full, Cfgs, CatSel
 F(f, d, t) == [f |-> f, pre |-> IF f \in {"user_id", "item_id"} THEN "" ELSE d \o "." \o f, tok |-> t, dv |-> FALSE]
 M(k, d, t) == [k |-> k, pre |-> d \o "." \o k, tok |-> t, vf |-> "ascii"]
 Step(d, call, bad, tag, fs, ks, t) ==
-    [def |-> d, call |-> Svc \o call, bad |-> bad, tag |-> tag, sleep |-> 0,
+    [def |-> d, call |-> Svc \o call, bad |-> bad, tag |-> tag, sleep |-> 0, ans |-> "OK",
      fields |-> {F(f, d, t) : f \in fs}, md |-> {M(k, d, t) : k \in ks}]
 
 J1 == [name |-> "e1", steps |-> <<Step("e1", "Hello", "none", "e1", {"name"}, {"a"}, "5001")>>]
@@ -43,8 +43,13 @@ J10 == [name |-> "e10", steps |-> <<Step("e10", "Hello", "none", "e10", {"name"}
 S6 == [name |-> "s6", steps |-> <<Step("c6", "Hello", "none", "s6.c6", {"name"}, {"auth", "Auth", "AUTH"}, ""), TailStep("s6")>>]
 S7 == [name |-> "s7", steps |-> <<Utf8(Step("c7", "Hello", "none", "s7.c7", {"name"}, {"x-bin", "B"}, ""), {"x-bin"}), TailStep("s7")>>]
 S8 == [name |-> "s8", steps |-> <<Step("c8", "Hello", "none", "s8.c8", {"name"}, {"nonascii-key"}, ""), TailStep("s8")>>]
+\* the target answers with an error status
+Ans(st, a) == [st EXCEPT !.ans = a]
+J11 == [name |-> "e11", steps |-> <<Ans(Step("e11", "Hello", "none", "e11", {"name"}, {"a"}, "5011"), "UNAVAILABLE")>>]
+S9 == [name |-> "s9", steps |-> <<Ans(Step("c9", "Hello", "none", "s9.c9", {"name"}, {"b"}, ""), "UNAVAILABLE"), TailStep("s9")>>]
 MainCat == [json |-> {J1, J2, J3, J4, J5, J6}, scn |-> {S1, S2, S3, S4, S5}]
-MdCat   == [json |-> {J1, J7, J8, J9, J10}, scn |-> {S1, S6, S7, S8}]
+\* (the second catalogue: metadata forms and error answers; J8 / J10 / S7 are covered by the generated case space)
+MdCat   == [json |-> {J7, J9, J11}, scn |-> {S6, S8, S9}]
 Cat(k) == CatSel[k]
 Files(k) == UNION {[1..n -> Cat(k)] : n \in 1..MaxFile}
 
@@ -65,7 +70,7 @@ AllKeys == <<"a", "A", "b", "B", "auth", "Auth", "AUTH", "x-bin", "X-Bin", "payl
 MdSeqU(S, U) == LET sel == SelectSeq(AllKeys, LAMBDA k : k \in S)
                 IN [i \in 1..Len(sel) |-> [k |-> sel[i], vf |-> IF sel[i] \in U THEN "utf8" ELSE "ascii"]]
 MdSeq(S) == MdSeqU(S, {})
-Abs(m, fs, mds, bad, st, nu) == [call |-> m, fields |-> fs, md |-> MdSeq(mds), bad |-> bad, style |-> st, num |-> nu, dflt |-> {}]
+Abs(m, fs, mds, bad, st, nu) == [call |-> m, fields |-> fs, md |-> MdSeq(mds), bad |-> bad, style |-> st, num |-> nu, dflt |-> {}, ans |-> "OK"]
 \* what the SPECIFICATION says about an entry: declared bad, or metadata that cannot be attached (GrpcWire!Bad)
 AbsBad(a) == IF a.bad # "none" THEN a.bad ELSE IF \E i \in DOMAIN a.md : ~MdLegal(a.md[i]) THEN "badmd" ELSE "none"
 \* metadata key forms: other cases, several entries under one wire key, binary values, entries that cannot be attached
@@ -88,7 +93,12 @@ Defaults == {[Abs(m, InputType(m), mds, "none", "rot", "rot") EXCEPT !.dflt = D]
 DefaultSet == {a \in Defaults : a.dflt # {} /\ a.dflt \subseteq {InputType(a.call)[i].f : i \in DOMAIN InputType(a.call)}}
 \* a payload naming a field the method does not have (the other ill-typed entries rotate through three mechanisms)
 UnknownField == {Abs(m, InputType(m), {}, "illtyped", "unknownfield", "rot") : m \in Methods}
-GoodSet == {a \in GoodAbs : a.fields \in FieldSubsets(a.call)} \cup NameClash \cup DefaultSet \cup {a \in MdForms : AbsBad(a) = "none"}
+\* the target answers the entry with an error status: every status (the recording target finds the entry by the name in its
+\* string fields / metadata values, so these entries carry one)
+Answered == {[Abs("Hello", InputType("Hello"), mds, "none", "rot", "rot") EXCEPT !.ans = a] : a \in Statuses \ {"OK"}, mds \in {{"a"}}}
+            \cup {[Abs("Order", InputType("Order"), {"auth", "b"}, "none", "rot", "rot") EXCEPT !.ans = a] : a \in {"UNAVAILABLE", "RESOURCE_EXHAUSTED", "ABORTED"}}
+            \cup {[Abs("Stats", <<>>, {"a"}, "none", "rot", "rot") EXCEPT !.ans = "UNAVAILABLE"]}
+GoodSet == {a \in GoodAbs : a.fields \in FieldSubsets(a.call)} \cup NameClash \cup DefaultSet \cup {a \in MdForms : AbsBad(a) = "none"} \cup Answered
 BadSet  == {Abs("Hello", <<>>, mds, "unknown", "rot", "rot") : mds \in {{}, {"a"}, {"a", "b", "auth"}}}
            \cup {a \in {Abs(m, fs, mds, "illtyped", "rot", "rot") : m \in Methods,
                         fs \in UNION {FieldSubsets(mm) : mm \in Methods}, mds \in {{}, {"b"}}} :
@@ -113,8 +123,8 @@ Rot(a, i) == IF a.bad \in {"undecodable", "tmplfail"} \/ a.style = "unknownfield
 WithDv(a) == [a EXCEPT !.fields = [j \in DOMAIN @ |-> @[j] @@ [dv |-> @[j].f \in a.dflt]]]
 Entry(i) == [id |-> i] @@ Rot(WithDv(Woven[i]), i)
 \* the expected observable of every entry, computed here: is the call received, how many ok / failed samples
-Expect(a) == [received |-> AbsBad(a) = "none", ok_samples |-> IF AbsBad(a) = "none" THEN 1 ELSE 0,
-              failed_samples |-> IF AbsBad(a) = "none" THEN 0 ELSE 1]
+Expect(a) == [received |-> AbsBad(a) = "none", ok_samples |-> IF AbsBad(a) = "none" /\ a.ans = "OK" THEN 1 ELSE 0,
+              failed_samples |-> IF AbsBad(a) = "none" /\ a.ans = "OK" THEN 0 ELSE 1]
 EntriesOut == [i \in 1..N |-> Entry(i) @@ [expect |-> Expect(Woven[i])]]
 \* every scenario is <entry, tail>; the tail call carries a templated payload field and all three
 \* templated metadata keys, so every scenario shot of every instance renders the SAME shared step
